@@ -366,7 +366,53 @@ def _drop_prefix_lines(text):
     return "\n".join(l for l in text.split("\n") if not l.startswith("PREFIX "))
 
 
+def lifetime_fresh(life, scratch):
+    """Runs in a pristine process: one extraction of one lifetime of a 'lifetimes' scenario."""
+    os.makedirs(scratch, exist_ok=True)
+    sim = Sim(scratch)
+    with sim:
+        set_knob(NEVER_FLUSH)
+        r = call(lambda: new_shaper(_lifetime_kwargs(life)).shex_graph(string_output=True), None)
+    return {"kind": r.kind, "text": r.text, "exc": r.exc, "msg": r.msg}
+
+
+def _lifetime_kwargs(life):
+    kw = {"raw_graph": life["doc"], "namespaces_dict": dict(gen.BASE_NS), "instances_report_mode": "mixed"}
+    kw.update(target_kwargs(life["target"]))
+    if "input_format" in life:
+        kw["input_format"] = life["input_format"]
+    return kw
+
+
+def _execute_lifetimes(scen, scratch):
+    """Object lifetimes in one process: every extraction builds its objects, returns its document and is dropped before
+    the next one starts (cycles collected), so a later extraction may get objects at the addresses of dead ones.
+    Every document must equal the one a pristine process computes from the same arguments."""
+    import gc
+    from ..pristine import call as pristine_call
+    sim = Sim(scratch)
+    violations, verdicts, texts = [], [], []
+    with sim:
+        set_knob(NEVER_FLUSH)
+        for j, life in enumerate(scen["lifetimes"]):
+            r = call(lambda: new_shaper(_lifetime_kwargs(life)).shex_graph(string_output=True), None)
+            gc.collect()
+            ref = pristine_call("dsim.props.c18", "lifetime_fresh", life, os.path.join(scratch, "fresh"))
+            sim.probes["lifetimes"] += 1
+            verdicts.append(("life", j, r.brief()))
+            sim.log.add("op", "life", j, r.brief())
+            if (r.kind, r.exc) != (ref["kind"], ref["exc"]):
+                violations.append(violation("history", "exception_parity", ["lifetime %d" % j, ref["kind"], r.brief()]))
+            elif r.kind == "ok" and r.text != ref["text"]:
+                violations.append(violation("history", "bytes_differ", {"lifetime": j, "expected": sha(ref["text"]), "got": sha(r.text)}))
+            if r.kind == "ok":
+                texts.append(r.text)
+    return finish(sim, violations, verdicts, len(texts) >= 2, len(scen["lifetimes"]), texts)
+
+
 def execute(scen, scratch):
+    if "lifetimes" in scen:
+        return _execute_lifetimes(scen, scratch)
     sim = Sim(scratch)
     violations = []
     verdicts = []
@@ -744,6 +790,27 @@ def extra_scenarios(tier, base):
                             {"op": "shex", "i": 0, "format": SHEXC, "sink": "string", "threshold": 0},
                             {"op": "shex", "i": 0, "format": SHEXC, "sink": "file", "threshold": 0}]}
             out.append(("sweep-%d-%s-%d" % (h, which, pos), scen))
+    # object lifetimes: graphs of one size, one selector text, different content, one after the other in one process
+    for h in range(2 if tier == "quick" else 24):
+        rng = random.Random("C18-lifetimes:%s:%s" % (base, h))
+        lives = []
+        for j in range(40):
+            triples = []
+            for n in range(6):
+                node = gen.iri(gen.EX + "n%d" % n)
+                triples.append((node, gen.iri(gen.RDF_TYPE), gen.iri(gen.EX + rng.choice(["C0", "C1"]))))
+                triples.append((node, gen.iri(gen.EX + "p%d" % rng.randrange(2)), gen.lit("v%d" % rng.randrange(3), gen.XSD + "string")))
+            lives.append({"doc": gen.to_nt(triples),
+                          "target": {"shape_map_raw": "SPARQL'select ?s where {?s a <%sC0>}'@<http://sh.org/S0>\n{FOCUS a <%sC1>}@<http://sh.org/S1>" % (gen.EX, gen.EX)}})
+        # ... among them an extraction whose input does not parse (it raises, here and in the pristine process), followed
+        # by one whose rdflib-parsed input holds numbers written in two ways
+        sm = lives[0]["target"]
+        lives.insert(7, {"doc": "<http://ex.org/n0> <http://ex.org/p0> \"unterminated .\n<http://ex.org/n0> a .\n", "target": sm})
+        lives.insert(8, {"doc": "@prefix ex: <http://ex.org/> .\n@prefix xsd: <http://www.w3.org/2001/XMLSchema#> .\n"
+                                "ex:n0 a ex:C0 ; ex:code \"01\"^^xsd:integer , \"1\"^^xsd:integer .\n"
+                                "ex:n1 a ex:C0 ; ex:code \"2\"^^xsd:integer .\n",
+                         "input_format": "turtle", "target": {"all_classes_mode": True}})
+        out.append(("lifetimes-%d" % h, {"lifetimes": lives}))
     return out
 
 
@@ -752,6 +819,14 @@ def extra_scenarios(tier, base):
 # ---------------------------------------------------------------------------
 
 def shrink(scen):
+    if "lifetimes" in scen:
+        for j in range(len(scen["lifetimes"])):
+            c = copy.deepcopy(scen)
+            del c["lifetimes"][j]
+            if c["lifetimes"]:
+                yield c
+        return
+
     def extra(s):
         # fewer shapers
         if len(s["shapers"]) == 2:
